@@ -247,7 +247,7 @@ Proof.
   - (* resumed: straight to EXPECT_FINISHED, the authentication is the PSK *)
     eapply (cinv_extend c s _ m CLIENT_EXPECT_FINISHED I Hsome); fields; try reflexivity; try discriminate.
     + rewrite Er. reflexivity.
-    + intro; discriminate.
+    + intro; congruence.
   - eapply (cinv_extend c s _ m CLIENT_EXPECT_CERTIFICATE_REQUEST_OR_CERTIFICATE I Hsome); fields;
       try reflexivity; try discriminate; auto.
 Qed.
@@ -377,10 +377,10 @@ Lemma cinv_step : forall c s m o s' out,
 Proof.
   intros c s m o s' out I H.
   destruct (ci_client c s I) as [Hc Hn].
-  unfold step in H. rewrite dispatch_all in H.
+  unfold step in H.
   destruct (t_state s) eqn:Es; try discriminate Hc; try congruence;
     (destruct (negb (framedb m)); [inversion H; subst; exact I |]);
-    cbn [legal_next] in H;
+    rewrite dispatch_all in H; cbn [legal_next] in H;
     repeat match type of H with
     | context [if ?b then _ else _] => destruct b
     end;
